@@ -46,7 +46,7 @@ class Env:
 BUILTIN_NAMES = {
     "len", "isinstance", "getattr", "callable", "max", "min", "float", "int", "str", "range", "dict",
     "set", "tuple", "type", "hasattr", "sum", "bool", "list", "object", "super", "repr", "abs", "setattr",
-    "issubclass", "iter", "next", "sorted", "any", "all", "enumerate", "zip", "frozenset",
+    "issubclass", "iter", "next", "sorted", "any", "all", "enumerate", "zip", "frozenset", "round",
 }
 
 
@@ -1058,6 +1058,8 @@ class ExprMixin:
             return list(v)
         if isinstance(v, dict):
             return list(v.keys())
+        if isinstance(v, EnumMap):  # iteration over a dict = over its keys (members in definition order; symbolic presence forks)
+            return [k for k, _ in self.call_method(v, "items", [], {}, None)]
         if isinstance(v, GenExp):
             return self.run_comprehension(v.node, v.env)
         raise Unsupported(f"iterate({v!r})")
